@@ -212,19 +212,37 @@ def gen_scenario(rng, i):
             if cfg_ + '/' + leaf in world and world[cfg_ + '/' + leaf] is not None:
                 world[base + 'dotfiles/' + leaf] = world.pop(cfg_ + '/' + leaf)
                 world[cfg_ + '/' + leaf + '@'] = '../dotfiles/' + leaf
+    reloc = None
+    if i % 4 == 2:
+        reloc = ['Household [2024]', 'my budget (joint) & co', 'b\u00fcdget 2025', 'a*b?c', 'plain'][(i // 4) % 5]
+    elif rng.random() < 0.08:
+        reloc = rng.choice(['Household [2024]', 'my budget (joint) & co', "it's {mine}", '100% $HOME'])
+    if reloc and reloc != 'plain':
+        # the budget lives in a folder whose name means something to glob, regular expressions, format strings or shells;
+        # the command is started inside it
+        world = {reloc + '/' + r_: c for r_, c in world.items()}
+        cwd = reloc if cwd in ('.', '') else reloc + '/' + cwd
+        obs = dict(obs, cwd=reloc if obs['cwd'] in ('.', '') else reloc + '/' + obs['cwd'])
     snap = {}
     for r_, c in world.items():
         if c is None:
             snap[r_.rstrip('/') + '/'] = None
         else:
             snap[r_] = c.encode('utf-8')
+    env = {}
+    if (kind == 'layout' and (i % 16 == 7 or rng.random() < 0.15)) or (kind == 'csv' and rng.random() < 0.1):
+        # the shell exports TALLY_CONFIG=<budget>/config (a path that the layout migration is about to make dangle)
+        cfg_here = [r_[:-len('/settings.yaml')] for r_ in world if r_.endswith('config/settings.yaml') or r_.endswith('config/settings.yaml@')]
+        if cfg_here:
+            env = {'TALLY_CONFIG': '<ROOT>/' + cfg_here[0].rstrip('@')}
     return {
         'class': cls,
+        'env': env,
         'leftover_edited': bool(kind == 'csv' and leftover),
         'world': util.snap_to_json(snap),
-        'cmd': {'argv': argv, 'cwd': cwd, 'tty': tty, 'net': net,
+        'cmd': {'argv': argv, 'cwd': cwd, 'tty': tty, 'net': net, 'env': env,
                 'today': rng.choice(['2025-06-15', '2024-12-31', '2025-01-01', '2024-02-29', '2026-10-04'])},
-        'obs': obs,
+        'obs': dict(obs, env=env),
     }
 
 
@@ -255,7 +273,8 @@ def classification(doc):
 
 
 def observe(root, ctlp, obs):
-    r = proc.run_cli(root, obs['argv'], {'tty': {}, 'net': 'down'}, cwd=obs['cwd'], ctl_parent=ctlp)
+    env = {k: v.replace('<ROOT>', os.path.realpath(root)) for k, v in (obs.get('env') or {}).items()}
+    r = proc.run_cli(root, obs['argv'], {'tty': {}, 'net': 'down', 'env': env}, cwd=obs['cwd'], ctl_parent=ctlp)
     doc = parse_json_report(r.out) if r.exit == 0 else None
     if doc is None:
         err = (util.norm_text(r.err, root).strip().split('\n') or [''])[-1][:200]
@@ -398,7 +417,8 @@ def effect_desc(e):
 
 def run_cmd(root, ctlp, cmd, fault=None):
     plan = {'tty': dict(cmd['tty'], answers=list(cmd['tty'].get('answers') or [])), 'net': cmd['net'],
-            'today': cmd['today'], 'fault': fault, 'log_reads': True}
+            'today': cmd['today'], 'fault': fault, 'log_reads': True,
+            'env': {k: v.replace('<ROOT>', os.path.realpath(root)) for k, v in (cmd.get('env') or {}).items()}}
     if fault and fault.get('kind') == 'read-fault':
         plan['fault'] = None
         plan['reads'] = {fault['path']: fault['how']}
